@@ -240,6 +240,9 @@ class ConcEnv:
         self.tol = tol
         self.failed = []          # claims that fail numerically
         self.claims = 0
+        self.proved = 0
+        self.inconclusive = []
+        self.names = {}
         self.seen_signatures = set()
 
     def real(self, name, lo=None, hi=None, lo_strict=False, hi_strict=False):
